@@ -14,7 +14,7 @@ META = {
              'walk continues with the node that followed; send(False)/send(True) honoured; termination within 4*(nodes+inserted)+16 yields; final tree satisfies the C01 oracle. '
              'A cell is (action, relative position, on, back, all). Additional action replace+send(True) on the current node: after an undisturbed re-walk every new descendant must have been yielded before the node comes back (on=\'leave\'/\'both\'), or next (on=\'enter\'). Programs include list fields that start with None (Dict with leading **, kw_defaults).'),
     'budget': {'quick': 45, 'thorough': 900},
-    'floors': {'quick': {'schedules_executed': 15000, 'mutating_actions_applied': 8000, '#cells': 150}, 'thorough': {'schedules_executed': 400000, 'mutating_actions_applied': 200000, '#cells': 200}},
+    'floors': {'quick': {'schedules_executed': 15000, 'mutating_actions_applied': 8000, '#cells': 150}, 'thorough': {'schedules_executed': 250000, 'mutating_actions_applied': 110000, '#cells': 200}},
     'shares_c01_oracle': True,
     'assumptions': ['"never loops forever" is decided as a step bound', 'scope walks are exercised with on="enter" only (documented restriction)'],
     'technique': 'runtime monitoring: systematic enumeration of walk/mutation interleavings, each a real execution with invariants checked at every yield',
